@@ -563,6 +563,13 @@ func tiingoProp() engine.AnyProp {
 			srvBody, srvCode = c.Data, c.Status
 			srvMu.Unlock()
 			repo := asset.NewTiingoRepository("key")
+			if len(c.Data)%2 == 1 {
+				// the route the command-line programs take: the repository factory
+				if r, err := asset.NewRepository(asset.TiingoRepositoryBuilderName, "key"); err == nil {
+					repo = r.(*asset.TiingoRepository)
+					o.Class("built_by_the_repository_factory")
+				}
+			}
 			repo.BaseURL = s.URL
 			repo.Logger = quiet
 			var getErr error
@@ -793,8 +800,80 @@ func fsRepoProp() engine.AnyProp {
 	}
 }
 
+// tiingoSlowProp: a body that arrives slowly is not a body that is damaged. Once per run (shard 0)
+// a well-formed array of 3000 records is served in two parts 11 s apart (31 s in the thorough
+// tier; the pause is waiting, not a verdict) to a repository built by the factory; every record
+// must arrive.
+var slowBodyOnce sync.Once
+
+func tiingoSlowProp() engine.AnyProp {
+	return engine.Prop[pathCase]{
+		ID: "C19", Subject: "tiingo/slow-body",
+		Gen: func(t *rapid.T) pathCase { return pathCase{Kind: rapid.IntRange(0, 1).Draw(t, "kind")} },
+		Check: func(c pathCase) engine.Outcome {
+			var o engine.Outcome
+			o.Key = "skipped"
+			if engine.Shard() != 0 {
+				return o
+			}
+			slowBodyOnce.Do(func() {
+				o.Key = "slow body"
+				pause := 11 * time.Second
+				if engine.Thorough() {
+					pause = 31 * time.Second
+				}
+				const records = 3000
+				var body bytes.Buffer
+				body.WriteString("[")
+				for i := 0; i < records; i++ {
+					if i > 0 {
+						body.WriteString(",")
+					}
+					fmt.Fprintf(&body, `{"date":"2020-01-%02dT00:00:00.000Z","adjOpen":%d,"adjHigh":%d.5,"adjLow":%d.25,"adjClose":%d.75,"adjVolume":%d}`, 1+i%28, i, i, i, i, 100+i)
+				}
+				body.WriteString("]")
+				half := body.Len() / 2
+				slow := httptest.NewServer(http.HandlerFunc(func(w http.ResponseWriter, r *http.Request) {
+					w.WriteHeader(200)
+					_, _ = w.Write(body.Bytes()[:half])
+					if f, ok := w.(http.Flusher); ok {
+						f.Flush()
+					}
+					time.Sleep(pause)
+					_, _ = w.Write(body.Bytes()[half:])
+				}))
+				defer slow.Close()
+				r, err := asset.NewRepository(asset.TiingoRepositoryBuilderName, "key")
+				if err != nil {
+					o.Failf("NewRepository(tiingo): %v", err)
+					return
+				}
+				repo := r.(*asset.TiingoRepository)
+				repo.BaseURL, repo.Logger = slow.URL, quiet
+				res := pipe.Run([][]int{}, pipe.Opts{}, func(_ []<-chan int) []<-chan *asset.Snapshot {
+					ch, err := repo.GetSince("aapl", time.Date(2020, 1, 1, 0, 0, 0, 0, time.UTC))
+					if err != nil {
+						empty := make(chan *asset.Snapshot)
+						close(empty)
+						return []<-chan *asset.Snapshot{empty}
+					}
+					return []<-chan *asset.Snapshot{ch}
+				})
+				if !res.OK() || len(res.Outs[0]) != records {
+					o.Failf("tiingo GetSince on a well-formed body of %d records served in two parts %v apart: %s, %d records delivered", records, pause, res.Verdict, len(res.Outs[0]))
+					return
+				}
+				o.NonTrivial = true
+				o.Add("slow_bodies", 1)
+			})
+			return o
+		},
+	}
+}
+
 func props() []engine.AnyProp {
 	return []engine.AnyProp{
+		tiingoSlowProp(),
 		fsRepoProp(),
 		csvProp[RowA]("RowA(string,bool,ints)"), csvProp[RowB]("RowB(uints,floats)"), csvProp[RowC]("RowC(times,renamed)"), csvProp[asset.Snapshot]("Snapshot"),
 		jsonProp[int]("int", "int"), jsonProp[float64]("float64", "float64"), jsonProp[string]("string", "string"), jsonProp[asset.Snapshot]("Snapshot", "snapshot"),
